@@ -180,19 +180,38 @@ Record cdef := { c_tname : str; c_params : list member; c_chans : list (str * ts
 Inductive tdef := DStruct (s : sdef) | DEnum (e : edef).
 Record proj := { p_types : list tdef; p_cmds : list cdef; p_map : mapping }.
 
+(* escape_js (base/templates.rs) = escape_for_js (zod/filters.rs): backslash, double quote, newline,
+   carriage return, tab; the replace chain starts with the backslash, so one pass over the bytes is the
+   same function. Used for enum literals in both modes and inside quoted keys. *)
+Definition esc_js (s : str) : str :=
+  flat_map (fun c : ascii =>
+    let n := nat_of_ascii c in
+    if Nat.eqb n 92 then [c; c]
+    else if Nat.eqb n 34 then [ascii_of_nat 92; c]
+    else if Nat.eqb n 10 then [ascii_of_nat 92; ascii_of_nat 110]
+    else if Nat.eqb n 13 then [ascii_of_nat 92; ascii_of_nat 114]
+    else if Nat.eqb n 9 then [ascii_of_nat 92; ascii_of_nat 116]
+    else [c]) s.
+(* base/templates.rs is_identifier_name / ts_key filter: an identifier name stays bare, anything else
+   becomes a double-quoted escaped literal (the parser keeps the raw body of the literal).
+   Bytes above 127 are taken as letters (char::is_alphabetic on the non-ASCII characters met in names). *)
+Definition is_ident_name (k : str) : bool :=
+  match k with c :: r => is_id_start c && forallb is_id_char r | [] => false end.
+Definition mk_key (k : str) : key := if is_ident_name k then KeyId k else KeyStr (esc_js k).
+
 Definition params_name (c : cdef) : str := c_tname c ++ L "Params".
 Definition schema_name (n : str) : str := n ++ L "Schema".
 Definition index_sig : str * ty * ty := (L "key", TyRef [L "string"] [], TyRef [L "unknown"] []).
 Definition chan_member (m : mapping) (tsf : mapping -> tstruct -> ty) (c : str * tstruct) : key * bool * ty :=
-  (KeyId (fst c), false, TyRef [L "Channel"] [tsf m (snd c)]).
-Definition plain_member (m : mapping) (f : member) : key * bool * ty := (KeyId (m_key f), m_opt f, ts_ty_of m (m_ty f)).
+  (mk_key (fst c), false, TyRef [L "Channel"] [tsf m (snd c)]).
+Definition plain_member (m : mapping) (f : member) : key * bool * ty := (mk_key (m_key f), m_opt f, ts_ty_of m (m_ty f)).
 
 (* ts/templates/partials/interface.tera, enum.tera, param_interface.ts.tera *)
 Definition plain_type_item (m : mapping) (d : tdef) : item :=
   match d with
   | DStruct s => IInterface (s_name s) [] None (map (plain_member m) (s_fields s)) []
   | DEnum e => ITypeAlias (e_name e) []
-                 (match e_variants e with [v] => TyLit v | vs => TyUnion (map TyLit vs) end)
+                 (match e_variants e with [v] => TyLit (esc_js v) | vs => TyUnion (map (fun v => TyLit (esc_js v)) vs) end)
   end.
 Definition plain_param_items (m : mapping) (c : cdef) : list item :=
   match c_params c, c_chans c with
@@ -206,14 +225,14 @@ Definition plain_items (p : proj) : list item :=
    C10-5-zod-enum-alias the constant is followed by the inferred type alias, as for structs),
    param_schemas.ts.tera (isOptional adds a second .optional()), type_aliases.ts.tera *)
 Definition infer_of (n : str) : ty := TyRef [L "z"; L "infer"] [TyTypeof [schema_name n]].
-Definition zod_field (m : mapping) (f : member) : option key * ex := (Some (KeyId (m_key f)), zex_of m (m_ty f) false).
+Definition zod_field (m : mapping) (f : member) : option key * ex := (Some (mk_key (m_key f)), zex_of m (m_ty f) false).
 Definition zod_param (m : mapping) (f : member) : option key * ex :=
-  (Some (KeyId (m_key f)), if m_opt f then link (zex_of m (m_ty f) false) "optional" else zex_of m (m_ty f) false).
+  (Some (mk_key (m_key f)), if m_opt f then link (zex_of m (m_ty f) false) "optional" else zex_of m (m_ty f) false).
 Definition zod_type_items (m : mapping) (d : tdef) : list item :=
   match d with
   | DStruct s => [IConst (schema_name (s_name s)) (zcall "object" [EObj (map (zod_field m) (s_fields s))]);
                   ITypeAlias (s_name s) [] (infer_of (s_name s))]
-  | DEnum e => [IConst (schema_name (e_name e)) (zcall "enum" [EArr (map (EStr """"%char) (e_variants e))]);
+  | DEnum e => [IConst (schema_name (e_name e)) (zcall "enum" [EArr (map (fun v => EStr """"%char (esc_js v)) (e_variants e))]);
                 ITypeAlias (e_name e) [] (infer_of (e_name e))]
   end.
 Definition zod_param_schema (m : mapping) (c : cdef) : list item :=
@@ -232,6 +251,28 @@ Definition zod_alias (m : mapping) (c : cdef) : list item :=
 Definition zod_items (p : proj) : list item :=
   flat_map (zod_type_items (p_map p)) (p_types p) ++ flat_map (zod_param_schema (p_map p)) (p_cmds p) ++
   flat_map (zod_alias (p_map p)) (p_cmds p).
+
+(* ------------------------------------------------------------------ Rust type -> TypeStructure *)
+(* what TypeResolver::parse_type_structure reads from the printed type since the repair
+   C05-2-3-top-level-commas (Result, tuples and maps are split at top-level commas only): the
+   structure of the syntax tree. Checked against the real resolver / generators on every case. *)
+Definition is_nm (n : str) (s : string) : bool := str_eqb n (L s).
+Fixpoint structure_of (t : rty) : tstruct :=
+  match t with
+  | RRef t => structure_of t
+  | RTuple [] => TPrim (L "void")
+  | RTuple l => TTuple (map structure_of l)
+  | RPath n [] => match prim_of n with Some p => TPrim p | None => TCustom n end
+  | RPath n (a :: rest) =>
+      if is_nm n "Option" then match rest with [] => TOpt (structure_of a) | _ => TCustom (tts t) end
+      else if is_nm n "Result" then TRes (structure_of a)
+      else if is_nm n "Vec" then match rest with [] => TArr (structure_of a) | _ => TCustom (tts t) end
+      else if is_nm n "HashMap" || is_nm n "BTreeMap" then
+             match rest with [v] => TMap (structure_of a) (structure_of v) | _ => TCustom (tts t) end
+      else if is_nm n "HashSet" || is_nm n "BTreeSet" then
+             match rest with [] => TSet (structure_of a) | _ => TCustom (tts t) end
+      else TCustom (tts t)
+  end.
 
 (* ------------------------------------------------------------------ classes of recorded defects *)
 Fixpoint has_set_t (t : tstruct) : bool :=
